@@ -159,6 +159,11 @@ class Evaluator:
             return tp.method_selector(n[1].encode("utf-8"))
         if t == "enum":
             return ENUMS[n[1]]
+        if t in ("tmpli", "tmplb", "tmpla"):
+            v = self.recipe.get("tmpl", {}).get(n[1])
+            if v is None:
+                raise Unsupported("template %s not substituted" % n[1])
+            return v if t == "tmpli" else bytes.fromhex(v)
         if t == "txn":
             return W.txn_field(TXN_METHODS[n[1]][0])
         if t == "gtxn":
